@@ -280,7 +280,20 @@ def r18_3(ctx, m):
         raises = [c for c in walk_no_nested(dlr.node) if isinstance(c, ast.Call) and call_name(c) == "conditional_raise"]
         okr = len(raises) == 1 and f"{tg[1]} < 0" in src(raises[0].args[0])
         ctx.check("R18.3", key, tg[0] == rhs and okr, f"{src(solves[0])}; {[src(c)[:80] for c in raises]}", dlr, solves[0])
+    sampling_enabler_assembly(ctx, m, "R18.3")
 
+
+def sampling_enabler_assembly(ctx, m, rid):
+    """classic SamplingEnabler.special_draw_sample: (L+P) x = P s + n with s ~ P^-1, n ~ L"""
+    from fractions import Fraction
+
+    def kwv(c, name, posn=None):
+        for k in c.keywords:
+            if k.arg == name:
+                return src(k.value)
+        if posn is not None and len(c.args) > posn:
+            return src(c.args[posn])
+        return None
     # ---- classic
     SE = m.cls("nifty.cl.operators.sampling_enabler", "SamplingEnabler")
     ctx.saw_class(SE)
@@ -292,13 +305,13 @@ def r18_3(ctx, m):
     okop = len(opdef) == 1 and _lin(opdef[0].value, {lp[0]: "L", lp[1]: "P"}, {}) == {"L": Fraction(1), "P": Fraction(1)}
     attr_ok = all(any(isinstance(st, ast.Assign) and src(st.targets[0]) == f"self._{n_}" and src(st.value) == n_ for st in walk_no_nested(ini.node))
                   for n_ in lp)
-    ctx.check("R18.3", key, okop and attr_ok, src(opdef[0]) if opdef else None, ini)
+    ctx.check(rid, key, okop and attr_ok, src(opdef[0]) if opdef else None, ini)
     ops = {"self._op": {"L": Fraction(1), "P": Fraction(1)}, "self._likelihood": {"L": Fraction(1)}, "self._prior": {"P": Fraction(1)}}
     handlers = [h for t in ast.walk(sd.node) if isinstance(t, ast.Try) for h in t.handlers]
     trys = [t for t in ast.walk(sd.node) if isinstance(t, ast.Try)]
     key = f"{sd.key}::direct path returns (op(sample), sample)"
     if len(trys) != 1 or len(handlers) != 1:
-        ctx.und("R18.3", key, "try/except shape not recognised", sd)
+        ctx.und(rid, key, "try/except shape not recognised", sd)
         return
     tb = trys[0].body
     d0 = [st for st in tb if isinstance(st, ast.Assign) and isinstance(st.value, ast.Call) and src(st.value.func) == "self._op.draw_sample"]
@@ -306,11 +319,11 @@ def r18_3(ctx, m):
     okd = len(d0) == 1 and len(r0) == 1 and isinstance(r0[0].value, ast.Tuple) and \
         [src(e) for e in r0[0].value.elts] == [f"self._op({src(d0[0].targets[0])})", src(d0[0].targets[0])] and \
         src(d0[0].value.args[0]) == sd.params()[1]
-    ctx.check("R18.3", key, okd, "; ".join(src(s_) for s_ in tb), sd, trys[0])
+    ctx.check(rid, key, okd, "; ".join(src(s_) for s_ in tb), sd, trys[0])
     hb = handlers[0].body
     ifs = [st for st in hb if isinstance(st, ast.If) and "start_from_zero" in src(st.test)]
     if len(ifs) != 1:
-        ctx.und("R18.3", f"{sd.key}::iterative path", "start_from_zero branch not found", sd)
+        ctx.und(rid, f"{sd.key}::iterative path", "start_from_zero branch not found", sd)
         return
 
     def branch(body, label):
@@ -322,7 +335,7 @@ def r18_3(ctx, m):
         qe = [st for st in body if isinstance(st, ast.Assign) and isinstance(st.value, ast.Call) and call_name(st.value) == "QuadraticEnergy"]
         key_ = f"{sd.key}::{label}"
         if len(qe) != 1:
-            ctx.und("R18.3", key_, "QuadraticEnergy construction not found", sd)
+            ctx.und(rid, key_, "QuadraticEnergy construction not found", sd)
             return None
         q = qe[0].value
         return draws, q, key_, qe[0]
@@ -335,7 +348,7 @@ def r18_3(ctx, m):
         draws, q, key_, st_ = r_
         bn = src(q.args[2]) if len(q.args) > 2 else None
         okz = draws.get(bn) == ("self._op", False) and src(q.args[1]) == "self._op" and _lin(q.args[0], {bn: "b"}, {}) == {} and not q.keywords
-        ctx.check("R18.3", key_, okz, src(q), sd, st_)
+        ctx.check(rid, key_, okz, src(q), sd, st_)
     r_ = branch(dflt_body, "default: s ~ P^-1, n ~ L, b = P s + n, start at s with gradient L s - n")
     if r_:
         draws, q, key_, st_ = r_
@@ -343,7 +356,7 @@ def r18_3(ctx, m):
         nj = [k for k, v in draws.items() if v == ("self._likelihood", False)]
         okd = len(sn) == 1 and len(nj) == 1 and len(draws) == 2
         if not okd:
-            ctx.bad("R18.3", key_, f"draws {draws}: expected one draw from the inverse prior metric and one from the likelihood metric", sd, st_)
+            ctx.bad(rid, key_, f"draws {draws}: expected one draw from the inverse prior metric and one from the likelihood metric", sd, st_)
         else:
             atoms = {sn[0]: "s", nj[0]: "n"}
             bdef = [st for st in dflt_body if isinstance(st, ast.Assign) and len(q.args) > 2 and src(st.targets[0]) == src(q.args[2])]
@@ -354,7 +367,7 @@ def r18_3(ctx, m):
             want_b = {("P", "s"): Fraction(1), "n": Fraction(1)}
             det = f"b = {bl}; x0 = {x0}; _grad = {gl}"
             if bl is None or x0 is None or (g and gl is None):
-                ctx.und("R18.3", key_, det, sd, st_)
+                ctx.und(rid, key_, det, sd, st_)
             else:
                 # gradient of 1/2 x^T M x - b^T x at x0: M x0 - b
                 mx = {}
@@ -364,7 +377,7 @@ def r18_3(ctx, m):
                 for k, v in bl.items():
                     mx[k] = mx.get(k, 0) - v
                 mx = {k: v for k, v in mx.items() if v != 0}
-                ctx.check("R18.3", key_, bl == want_b and src(q.args[1]) == "self._op" and x0 == {"s": Fraction(1)} and (not g or gl == mx),
+                ctx.check(rid, key_, bl == want_b and src(q.args[1]) == "self._op" and x0 == {"s": Fraction(1)} and (not g or gl == mx),
                           det + f"; M x0 - b = {mx}", sd, st_)
     rets = [r for r in handlers[0].body if isinstance(r, ast.Return)]
     qes = [st for st in ast.walk(handlers[0]) if isinstance(st, ast.Assign) and isinstance(st.value, ast.Call) and call_name(st.value) == "QuadraticEnergy"]
@@ -376,7 +389,7 @@ def r18_3(ctx, m):
     ok = len(rets) == 1 and isinstance(rets[0].value, ast.Tuple) and len(rets[0].value.elts) == 2 and inv and len(en_names) == 1 and len(b_names) == 1 and \
         all(src(st.targets[0].elts[0]) == src(inv[0].targets[0].elts[0]) for st in inv) and \
         src(rets[0].value.elts[1]) == f"{src(inv[0].targets[0].elts[0])}.position" and src(rets[0].value.elts[0]) in b_names
-    ctx.check("R18.3", key, bool(ok), src(rets[0]) if rets else None, sd)
+    ctx.check(rid, key, bool(ok), src(rets[0]) if rets else None, sd)
 
 
 _run_c18 = run
